@@ -4,11 +4,9 @@ from contracts import lri_lock as m
 
 
 def run(ded, repo, tier):
-    for q, vs in m.TARGETS:
-        for v in vs:
-            eng = m.make_engine(repo)
-            driver.discharge(ded, eng, q, clause_of={'*': 'atomicity'}, tier=tier, variant=v,
-                             only=lambda p: p.label.startswith('guarded-by') or p.kind == 'cover')
+    specs = [dict(module='contracts.lri_lock', repo=repo, q=q, variant=v, clause_of={'*': 'atomicity'}, tier=tier, only='guard')
+             for q, vs in m.TARGETS for v in vs]
+    driver.run_parallel(ded, specs)
     ded.assume('meta-argument (not mechanised): one lock + all protected accesses of an operation inside one critical '
                'section => every schedule is equivalent to a sequential one ordered by lock acquisition; sequential '
                'correctness is C02')
